@@ -1,5 +1,6 @@
 """Discharging obligations with z3: increment matching for count equalities, cut unification and
 tolerance-aware comparison of float tails, model extraction for replay."""
+import re
 import time
 import z3
 from fractions import Fraction
@@ -104,6 +105,10 @@ class Discharger(object):
         self.cut_rep = {}
         self.stats = {'queries': 0, 'solver_s': 0.0, 'pair_queries': 0, 'syntactic': 0, 'unknown': 0}
         self.smt2 = []
+        self.pair_solver = z3.Solver()
+        self.pair_solver.set('timeout', 10000)
+        self.cuts_memo = {}
+        self.max_tries = 16
 
     # ------------------------------------------------------------ solver plumbing
     def check(self, assertions, timeout=None, want_model=False):
@@ -152,6 +157,14 @@ class Discharger(object):
         self.varsets[k] = r
         return r
 
+    def maxvar(self, vs):
+        best = None
+        for v in vs:
+            k = tuple(int(p) if p.isdigit() else p for p in re.split(r'(\d+)', v))
+            if best is None or k > best:
+                best = k
+        return best
+
     # ------------------------------------------------------------ integer equalities
     def equiv(self, pc, g1, g2):
         if g1.eq(g2):
@@ -160,46 +173,66 @@ class Discharger(object):
         r = self.equiv_cache.get(key)
         if r is None:
             self.stats['pair_queries'] += 1
-            res, _ = self.check(list(pc) + [z3.Xor(g1, g2)], timeout=10000)
+            t = time.time()
+            s = z3.Solver()
+            s.set('timeout', 10000)
+            s.add(z3.Xor(g1, g2))
+            res = s.check()
+            if res != z3.unsat and pc:
+                # retry under the path condition
+                s = z3.Solver()
+                s.set('timeout', 10000)
+                for x in pc:
+                    s.add(x)
+                s.add(z3.Xor(g1, g2))
+                res = s.check()
+            self.stats['solver_s'] += time.time() - t
             r = (res == z3.unsat)
             self.equiv_cache[key] = r
         return r
 
     def match_increments(self, pc, d):
-        """d: GSum that should be identically zero. pair +c and -c guards by proven equivalence"""
+        """d: GSum that should be identically zero. Entries are cancelled pairwise: c[g] - c[g'] with g == g'
+        (proven), or c[g] + c[g'] with g == not g' (adds c to the constant)."""
         w = d.w
-        if d.const != 0:
-            return False
-        pos, neg = {}, {}
+        const = canon(d.const, w, True)
+        byabs = {}
         for g, c in d.terms.values():
             cc = canon(c, w, True)
-            (pos if cc > 0 else neg).setdefault(abs(cc), []).append(g)
-        if set(pos) != set(neg):
-            return False
-        for c in pos:
-            P, N = pos[c], neg[c]
-            if len(P) != len(N):
-                return False
-            used = [False] * len(N)
-            nvs = [self.varset(g) for g in N]
-            for g in P:
-                vs = self.varset(g)
-                order = sorted(range(len(N)), key=lambda j: (nvs[j] != vs, len(nvs[j] ^ vs)))
+            byabs.setdefault(abs(cc), []).append((g, cc))
+        for c, ents in byabs.items():
+            n = len(ents)
+            used = [False] * n
+            vss = [self.varset(g) for g, _ in ents]
+            mxs = [self.maxvar(v) for v in vss]
+            for i in range(n):
+                if used[i]:
+                    continue
+                gi, ci = ents[i]
+                order = sorted((j for j in range(i + 1, n) if not used[j]),
+                               key=lambda j: (vss[j] != vss[i], mxs[j] != mxs[i], len(vss[j] ^ vss[i])))
                 ok = False
                 tried = 0
                 for j in order:
-                    if used[j]:
-                        continue
-                    if nvs[j] != vs and tried >= 4:
+                    if vss[j] != vss[i] and tried >= self.max_tries:
                         break
                     tried += 1
-                    if self.equiv(pc, g, N[j]):
-                        used[j] = True
-                        ok = True
-                        break
+                    gj, cj = ents[j]
+                    if ci == -cj:
+                        if self.equiv(pc, gi, gj):
+                            used[i] = used[j] = True
+                            ok = True
+                            break
+                    else:
+                        if self.equiv(pc, gi, z3.Not(gj)):
+                            used[i] = used[j] = True
+                            const += ci
+                            ok = True
+                            break
                 if not ok:
+                    self.last_unmatched = (gi, ci)
                     return False
-        return True
+        return canon(const, w, False) == 0
 
     def prove_int_equal(self, pc, a, b, w=64):
         """returns 'unsat' (equal), 'sat', 'unknown' ; with model for sat"""
@@ -226,6 +259,10 @@ class Discharger(object):
         return cid
 
     def cuts_in(self, t):
+        k0 = t.get_id()
+        r = self.cuts_memo.get(k0)
+        if r is not None:
+            return r
         seen = set()
         out = []
         stack = [t]
@@ -238,8 +275,11 @@ class Discharger(object):
             seen.add(i)
             if i in cv:
                 out.append(i)
+            elif z3.is_bv(x):
+                continue      # bit-vector terms never contain real-valued cut variables
             else:
                 stack.extend(x.children())
+        self.cuts_memo[k0] = out
         return out
 
     def unify_cuts(self, pc, ta, tb):
@@ -405,7 +445,8 @@ class Discharger(object):
         else:
             tq = realq(Fraction(tol))
             neq = [z3.Or(ta2 - tb2 > tq, tb2 - ta2 > tq)]
-        base = side + extra + self.cut_ranges(ta2) + self.cut_ranges(tb2)
+        base = side + extra + self.cut_ranges(ta2) + self.cut_ranges(tb2) + list(self.ex.fc.real_assumes)
+        base += [d != 0 for d in self.ex.fdivs]
         res, m = self.check(base + neq, want_model=True)
         if res == z3.unsat:
             return 'unsat', None
